@@ -1,2 +1,4 @@
 import LeraxModel.Proto
 import LeraxModel.Gae
+import LeraxModel.Env
+import LeraxModel.Rescale
